@@ -70,10 +70,16 @@ def main():
     dst = f"/verif/seeded/{sid}"
     os.makedirs(dst, exist_ok=True)
     for f in ("patch.diff", "demo.py"):
-        shutil.copy(os.path.join(src, f), os.path.join(dst, f))
+        if os.path.abspath(src) != os.path.abspath(dst):
+            shutil.copy(os.path.join(src, f), os.path.join(dst, f))
     meta = {}
     try:
         meta = json.load(open(os.path.join(src, "meta.json")))
+    except Exception:
+        pass
+    try:        # keep the evaluation made when the seed arrived ("first try") next to the latest one
+        prev = json.load(open(os.path.join(dst, "meta.json")))
+        meta["first_evaluation"] = prev.get("first_evaluation") or prev.get("evaluation")
     except Exception:
         pass
     meta["evaluation"] = result
